@@ -55,8 +55,18 @@ Octant(X, Y, Zc, DN) == LET x == X  y == Y IN
           ELSE IF x <= 0 /\ y > 0 THEN (IF -x < y THEN 2 ELSE 3)
           ELSE IF y <= 0 /\ x < 0 THEN (IF -y < -x THEN 4 ELSE 5)
           ELSE (IF x < -y THEN 6 ELSE 7)
-PhiOnBorder(X, Y, Zc, DN) == LET x == X  y == Y IN x = 0 \/ y = 0 \/ Abs(x) = Abs(y)
-IPhi(X, Y, Zc, DN) == ((Octant(X, Y, Zc, DN) * 45) % (NPHI * DPHI)) \div DPHI                   \* periodic: phi mod period, then the sector
+\* 30-degree sector (0..11) of the same angle, by exact comparisons with tan 30 = 1/sqrt 3 and tan 60 = sqrt 3
+Third(a, b) == IF 3 * b * b < a * a THEN 0 ELSE IF b * b < 3 * a * a THEN 1 ELSE 2      \* a > 0, b >= 0: sector of atan(b / a) in [0, 90)
+Twelfth(X, Y, Zc, DN) == LET x == X  y == Y IN
+          IF y >= 0 /\ x > 0 THEN Third(x, y)
+          ELSE IF x <= 0 /\ y > 0 THEN 3 + Third(y, -x)
+          ELSE IF y <= 0 /\ x < 0 THEN 6 + Third(-x, -y)
+          ELSE 9 + Third(-y, x)
+\* grids whose cell size is a multiple of 45 degrees use the octants, multiples of 30 degrees the twelfths
+Use30 == DPHI % 45 # 0
+PhiOnBorder(X, Y, Zc, DN) == LET x == X  y == Y IN x = 0 \/ y = 0 \/ (IF Use30 THEN 3 * y * y = x * x \/ y * y = 3 * x * x ELSE Abs(x) = Abs(y))
+PhiDeg(X, Y, Zc, DN) == IF Use30 THEN Twelfth(X, Y, Zc, DN) * 30 ELSE Octant(X, Y, Zc, DN) * 45
+IPhi(X, Y, Zc, DN) == (PhiDeg(X, Y, Zc, DN) % (NPHI * DPHI)) \div DPHI                   \* periodic: phi mod period, then the sector
 CylCell(X, Y, Zc, DN) == <<IR(X, Y, Zc, DN), IPhi(X, Y, Zc, DN), FloorDiv(Zc, DN * DZc)>>
 CylOnFace(X, Y, Zc, DN) == ROnFace(X, Y, Zc, DN) \/ PhiOnBorder(X, Y, Zc, DN) \/ Zc % (DN * DZc) = 0
 
